@@ -362,13 +362,35 @@ func overlapSearch(c *kit.Ctx) {
 	}
 	{
 		A, B := ssa.Value(iro.Params[0]), ssa.Value(iro.Params[1])
+		// what the parameters of a boolean helper stand for while its body is walked
+		bound := map[ssa.Value]ssa.Value{}
 		getter := func(v ssa.Value, m string) (ssa.Value, bool) {
-			call, ok := kit.Strip(v).(*ssa.Call)
+			v = kit.Strip(v)
+			for n := 0; n < 4; n++ {
+				w, ok := bound[v]
+				if !ok {
+					break
+				}
+				v = kit.Strip(w)
+			}
+			call, ok := v.(*ssa.Call)
 			if !ok || kit.CalleeName(call) != hrpcRI+m {
 				return nil, false
 			}
 			return call.Call.Value, true
 		}
+		helpers := &boolHelpers{bind: func(params []*ssa.Parameter, args []ssa.Value) func() {
+			for i, pa := range params {
+				if i < len(args) {
+					bound[pa] = args[i]
+				}
+			}
+			return func() {
+				for _, pa := range params {
+					delete(bound, pa)
+				}
+			}
+		}}
 		cl := func(cond ssa.Value) (string, bool, bool) {
 			cmp, ok := kit.CanonCmp(cond, true)
 			if !ok {
@@ -431,7 +453,7 @@ func overlapSearch(c *kit.Ctx) {
 			return "", false, false
 		}
 		atoms := []string{"NamespaceEq", "TableEq", "bStopEmpty", "aStartLtBStop", "aStopEmpty", "aStopGtBStart"}
-		tbl, bad := boolFuncTable(iro, atoms, cl)
+		tbl, bad := boolFuncTableH(iro, atoms, cl, helpers)
 		if tbl == nil {
 			c.Bad(iro, "overlap-predicate", iro.Pos(), "isRegionOverlap contains a condition that is not one of the canonical atoms (namespace/table equality, empty stop key, strict start<stop / stop>start): "+bad+" - touching neighbours must not overlap and an empty stop key means +infinity", "")
 		} else {
